@@ -23,13 +23,14 @@ SHARD_DEADLINE = {'quick': 300, 'thorough': 3300}
 INFIX = {'*': 'gp', '|': 'ip', '^': 'op', '&': 'rp', '>>': 'sw', '@': 'proj', '+': 'add', '-': 'sub', '/': 'div'}
 METHODS = ['gp', 'ip', 'sp', 'lc', 'rc', 'op', 'rp', 'sw', 'proj', 'cp', 'acp', 'add', 'sub', 'div']
 UNARY_ARR = ['neg', 'reverse', 'involute', 'conjugate', 'normsq', 'hodge', 'unhodge', 'outerexp', 'inv']
-KINDS = ['mv', 'number', 'npscalar', 'list', 'tuple', 'callable', 'nested-callable', 'callable-list']
+KINDS = ['mv', 'number', 'npscalar', 'list', 'tuple', 'callable', 'nested-callable', 'callable-list', 'callable-default-arg', 'bound-method',
+         'partial', 'callable-object']
 
 
 def floors(tier):
     f = {'distinct_nontrivial': 1500 if tier == 'quick' else 250000, 'index_cases': 500, 'setitem_cases': 250,
          'setitem_postconditions_evaluated': 250, 'operand_kind_cases': 600, 'noncommuting_sequence_or_callable_left': 150,
-         'reflected_dispatch_cases': 200, 'container_ndarray': 150, 'container_list': 150, 'container_tuple': 50}
+         'reflected_dispatch_cases': 200, 'container_ndarray': 150, 'container_list': 150, 'container_tuple': 50, 'callable_operand_cases': 300}
     for sym in INFIX:
         f['infix_' + sym] = 40
     return f
@@ -265,6 +266,24 @@ def wrap_operand(rng, kind, mv, mv2, number):
         return (lambda: (lambda: mv)), [mv], 'single'
     if kind == 'callable-list':
         return (lambda: [mv, mv2]), [mv, mv2], list
+    if kind == 'callable-default-arg':
+        return (lambda m=mv: m), [mv], 'single'           # zero-argument call, one parameter with a default
+    if kind == 'bound-method':
+        class Holder:
+            def __init__(self, m):
+                self.m = m
+
+            def current(self):
+                return self.m
+        return Holder(mv).current, [mv], 'single'
+    if kind == 'partial':
+        import functools
+        return functools.partial(lambda m: m, mv), [mv], 'single'
+    if kind == 'callable-object':
+        class Deferred:
+            def __call__(self):
+                return mv
+        return Deferred(), [mv], 'single'
     raise KeyError(kind)
 
 
@@ -313,6 +332,15 @@ def kinds_case(ctx, alg, iso, cfg, name):
     if st != 'ok':
         if st == 'exc':
             ctx.note_raised(got, f'{sym}')
+            # does the same expression succeed with the callables replaced by their values? then the callable was not "replaced by its value"
+            plain_l = lelems[0] if lshape == 'single' else (lshape(lelems))
+            plain_r = relems[0] if rshape == 'single' else (rshape(relems))
+            if callable(left) or callable(right):
+                st0, _g = ctx.guarded(30, lambda: eval(f'left {sym} right', {'left': plain_l if callable(left) else left,
+                                                                             'right': plain_r if callable(right) else right}))
+                if st0 == 'ok' and not isinstance(got, ZeroDivisionError):
+                    ctx.violation('a zero-argument callable operand was not replaced by its value', cid, config=cfg,
+                                  expression=f'<{lk}> {sym} <{rk}>', error=f'{type(got).__name__}: {str(got)[:160]}')
         return
 
     def refelem(e):
@@ -335,7 +363,9 @@ def kinds_case(ctx, alg, iso, cfg, name):
     ctx.count('infix_' + sym)
     if lk != 'mv':
         ctx.count('reflected_dispatch_cases')
-    seq_or_call_left = lk in ('list', 'tuple', 'callable', 'nested-callable', 'callable-list')
+    seq_or_call_left = lk not in ('mv', 'number', 'npscalar')
+    if 'callable' in lk + rk or 'method' in lk + rk or 'partial' in lk + rk:
+        ctx.count('callable_operand_cases')
     if noncomm and seq_or_call_left:
         ctx.count('noncommuting_sequence_or_callable_left')
     ctx.case(cid, nontrivial=noncomm or lk == rk == 'mv')
